@@ -611,6 +611,25 @@ func genLogq(r *rand.Rand, mode string) logqIn {
 		case 3:
 			in.Stages = append(in.Stages, stageIn{T: "logfmt"}, stageIn{T: "drop", Labels: IntsList{B("msg")}})
 		}
+		if r.Intn(3) == 0 {
+			// a filter that rejects some records in between: what a rejected record carried (its labels, its count
+			// towards the limit) must not reach the entries around it
+			eps, _ := json.Marshal(&ReAST{T: "eps"})
+			flt := []stageIn{
+				{T: "label", Pred: &predIn{T: "m", Label: B("x"), Op: "eq", Val: B("a"), Re: eps}},
+				{T: "label", Pred: &predIn{T: "m", Label: B("y"), Op: "neq", Val: B("b"), Re: eps}},
+				{T: "label", Pred: &predIn{T: "m", Label: B("x"), Op: "neq", Val: B(""), Re: eps}},
+				{T: "line", Op: "eq", Val: B("m"), Re: eps},
+				{T: "line", Op: "neq", Val: B("="), Re: eps},
+			}[r.Intn(5)]
+			in.Stages = append([]stageIn{flt}, in.Stages...)
+			if len(in.Stages) > 1 && (in.Stages[1].T == "drop" || in.Stages[1].T == "keep") && r.Intn(2) == 0 && flt.T == "label" {
+				in.Stages[0], in.Stages[1] = in.Stages[1], in.Stages[0]
+				if in.Stages[0].T == "keep" { // keep x | <filter on y> would see no y: leave the filter first
+					in.Stages[0], in.Stages[1] = in.Stages[1], in.Stages[0]
+				}
+			}
+		}
 		in.Limit = []int{-1, 0, 1, 2, 3, n - 1, n, n + 1, 5}[r.Intn(9)]
 		in.Caps = in.Caps[:1+r.Intn(2)]
 	}
